@@ -2,6 +2,15 @@
 from gen import gen_loops
 from props._semprop import simple
 
+from common import prove
+
+MODULE = 'Proofs.Props.C16'
+THEOREMS = ['Facto.C16_iteration_values', 'Facto.loop1_eq', 'Facto.loop2_eq', 'Facto.mem_iterUp', 'Facto.iterValues_nil_of_empty']
+
 
 def run(res, tier):
+    proved = prove(res, MODULE, THEOREMS)
     simple(res, tier, gen_loops, 64, 1000, "seeded generator of range loops over (start, stop, step) in [-6,6]^2 x {none, +-1, +-2, +-3}, int-variable bounds, list iterators, nested loops; bodies place a lamp per iteration whose enable uses the iterator, so every iteration is observed")
+    if not proved:
+        res.violation({"reason": "a proof obligation of C16 no longer checks", "problems": res.proof_problems,
+                       "log": res.proof_log[-1500:], "obligation": MODULE}, failing_input=False)
